@@ -16,6 +16,10 @@ PROPS = {
              "Seeded search over interleavings of job goroutines, producer, canceller and fake-clock sleeps of the real job workers and BatchWork; oracle over the recorded history: every accepted job ran exactly once, Wait returned after all of them, the returned error is the first in kernel order, BatchWork visited every index once batch by batch with pref before the jobs; bounded liveness (returns within the step budget).",
              "trusted: harness bookkeeping of job start/end by kernel sequence numbers; x/sync/semaphore runs as shipped",
              SIM + "; history oracle (exactly-once, ordering, first-error, bounded liveness)"),
+    "C34": P("utilh",
+             "Seeded search over interleavings of the real SimpleTimers loop (on the fake clock), its worker jobs and 1-3 clients calling New/StopTimers/StopOthers/StopAllTimers with reused ids; oracle over the recorded history: no callback start after a covering stop returned, a live timer is removed only by a covering stop or by itself, no callback before its interval elapsed.",
+             "trusted: harness bookkeeping by kernel sequence numbers and fake-clock stamps; preemption points are lock/channel operations and harness callbacks",
+             SIM + "; history oracle on the fake clock"),
 }
 
 NOT_APPLICABLE = {
